@@ -1,16 +1,9 @@
 """C19 - unit-test expectation helpers."""
 
-# ASan keeps the allocation stack of every malloc in a depot that never shrinks; librapidcheck is built without frame
-# pointers, so the fast unwinder records garbage frames that differ from case to case below depth ~8 and the depot grows by
-# 4-20 KB per rapidcheck case (3 GB per shard at 10^5 cases). Short allocation contexts keep the shards at ~100 MB; the
-# stack of the *faulting* access in a report is not affected. (Same option string as run/check.py SAN_ENV otherwise.)
-ASAN_OPTIONS = ("abort_on_error=0:exitcode=97:detect_leaks=1:allocator_may_return_null=1:detect_stack_use_after_return=0:"
-                "handle_abort=1:symbolize=1:max_allocation_size_mb=4096:malloc_context_size=6:quarantine_size_mb=64")
-
 PROP = dict(
     level="exploration",
     all_exhaustive=True,
-    stages=[dict(name="c19_expect", src="harness/c19_expect.cc", env={"ASAN_OPTIONS": ASAN_OPTIONS}, shards_quick=4, shards_thorough=8,
+    stages=[dict(name="c19_expect", src="harness/c19_expect.cc", shards_quick=4, shards_thorough=8,
                  timeout_quick=300, timeout_thorough=900)],
     rule=("two finite matrices enumerated completely: (a) 8 helpers (expect_eq/ne/gt/ge/lt/le, expect, expect_msg) x all operand "
           "pairs over {INT64_MIN,-1,0,1,INT64_MAX}, {\"\",\"a\",\"b\",\"aa\"} and {-inf,-0.0,0.0,1.5,inf,NaN}; (b) expect_raises<E>(fn) for E over "
